@@ -309,7 +309,8 @@ class _ReadSourceGenerator:
                 reads.append(f"_t = {self._map_field(field)}")
                 reads.append("_et = _t.type")
 
-                if issubclass(field_type.type, Int):
+                if issubclass(read_type, Int):
+                    # Also enums over an Int type: the elements are sliced out of the raw bytes
                     reads.append(f"_b = {getter}")
                     item_parser = parser_template.format(type="_et", getter=f"_b[i:i + {field_type.type.size}]")
                     list_comp = f"[{item_parser} for i in range(0, {count}, {field_type.type.size})]"
